@@ -141,4 +141,4 @@ def run(ctx):
     ctx.layers["C"] = {"operations_compared_with_raw_twin": sum(s["n"] for s in sums), "records_validated_by_TLC": nval, "mismatches": sum(s["mismatches"] for s in sums)}
     ctx.states = max(ctx.states, 1)
     from .. import walks
-    walks.run(ctx, {"MulInt", "Neg"}, "scalar * and unary - inside chains of operations", seed_offset=13)
+    walks.run(ctx, {"MulInt", "DivInt", "Neg"}, "scalar * and unary - inside chains of operations", seed_offset=13)
